@@ -1348,4 +1348,51 @@ theorem merge_eq_hash (t : JoinType) (ht : t = .inner ∨ t = .leftOuter ∨ t =
   (mergejoin_sorted_perm t lk rk hlk hrk nL nR Ls Rs hsl hsr).trans (hashjoin_perm t ht lk rk nL nR Ls Rs).symm
 
 
+/-! ## hash semi / anti join with residual condition -/
+
+theorem holds_and3 (x y : Option Bool) : holds (and3 x y) = (holds x && holds y) := by
+  cases x with
+  | none => cases y with
+    | none => rfl
+    | some b => cases b <;> rfl
+  | some a => cases a <;> cases y with
+    | none => rfl
+    | some b => cases b <;> rfl
+
+theorem equiOn_split_resid (nL : Nat) (lk rk : List (Row → Val)) (cond : Pred) (l r : Row) (hl : l.length = nL) :
+    holds (equiOn nL lk rk cond (l ++ r)) = (holds (keysEq3 (keyOf lk l) (keyOf rk r)) && holds (cond (l ++ r))) := by
+  unfold equiOn keyOf
+  rw [holds_and3]
+  have h1 : (l ++ r).take nL = l := by rw [← hl]; simp
+  have h2 : (l ++ r).drop nL = r := by rw [← hl]; simp
+  rw [h1, h2]
+
+theorem any_filter' {α} (p q : α → Bool) (R : List α) : (R.filter p).any q = R.any (fun r => p r && q r) := by
+  induction R with
+  | nil => rfl
+  | cons a as ih =>
+    simp only [List.filter_cons, List.any_cons]
+    cases p a <;> simp [ih]
+
+/-- hash semi / anti join WITH a residual condition (`HashSemiJoinExecutor2`: right rows grouped by
+key, residual evaluated on `left row × group`) = nested-loop semi / anti join on `keys AND residual`,
+under KeysComparable. -/
+theorem hash_semi2_eq_nl (anti : Bool) (lk rk : List (Row → Val)) (cond : Pred) (nL : Nat) (Ls Rs : List Chunk)
+    (hlen : ∀ l ∈ flat Ls, l.length = nL) (hk : KeysComparable lk rk (flat Ls) (flat Rs)) :
+    flat (hashSemiJoin2 anti lk rk cond Ls Rs) = flat (nlSemiJoin anti (equiOn nL lk rk cond) Ls Rs) := by
+  unfold hashSemiJoin2 nlSemiJoin
+  rw [flat_map_filter, flat_emit]
+  apply List.filter_congr
+  intro l hl
+  congr 1
+  rw [any_filter', any_flat]
+  unfold flat
+  apply any_congr'
+  intro r hr
+  rw [equiOn_split_resid nL lk rk cond l r (hlen l hl), ← hk l hl r hr, beq_comm']
+
+example : flat (hashSemiJoin2 false [col0] [col0] (fun row => sqlGt (row.getD 1 .null) (.i32 0)) [[[.i32 1], [.i32 2]]] [[[.i32 1]], [[.i32 2]]]) =
+    [[.i32 1], [.i32 2]] := by decide
+
+
 end RlModel
